@@ -10,7 +10,7 @@ EXPLANATION = ('Value-flow normal forms of NUTSChain::new (constants, sentinel),
                'eps = exp(mu - sqrt(m)/gamma h_bar), eta\' = m^-kappa, eps_bar = exp((1-eta\') ln eps_bar + eta\' ln eps), else eps := eps_bar), and a crate-wide '
                'write-set analysis of the adaptation fields (who writes epsilon, epsilon_bar, m, n_discard, and under which guard) which gives the freeze: once m > n_discard, '
                'eps = eps_bar and neither changes. Positivity beyond "eps is an exp(.)" and realised acceptance rates are not decided.')
-FLOORS = {'obligations': 34}   # counted on the reference tree; fewer instantiated obligations is reported, never passed silently
+FLOORS = {'obligations': 39}   # counted on the reference tree; fewer instantiated obligations is reported, never passed silently
 TECHNIQUE = 'value-flow normal form vs specification table + crate-wide field write-set (guarded writers) analysis'
 CH = 'nuts::NUTSChain'
 
@@ -21,6 +21,13 @@ def run(ctx):
     fre(ctx)
     tail(ctx)
     writeset(ctx)
+    # the acceptance statistic that drives the adaptation (shared with C03): min(1, exp(.)) per new point (NaN-absorbing
+    # Float::min), summed over the subtree, taken from the last doubling
+    from . import C03
+    want = ('C03.b.alpha', 'C03.b.nalpha', 'C03.r.alpha_sum', 'C03.r.nalpha_sum', 'C03.t.alpha_last')
+    got = ctx.borrow(C03.run, lambda oid: oid in want)
+    if len(got) < len(want):
+        ctx.unknown('C04.alpha_stat', 'NUTSChain::step', 'acceptance-statistic', why='acceptance-statistic obligations could not be instantiated (%d of %d)' % (len(got), len(want)))
 
 
 def consts(ctx):
